@@ -10,6 +10,7 @@ solver, and nothing is executed: arithmetic on unknown values yields an uninterp
 Local callees are inlined (the crate has no recursion); foreign callees are given by
 axioms (analysis/axioms.py) or default to "returns unknown, havocs what it may write".
 """
+import time as _time
 from collections import defaultdict
 
 from .mir import callee_of, short, fmt_place
@@ -271,6 +272,8 @@ class Interp:
             nstates += 1
             if nstates > self.max_states:
                 raise PathLimit("more than %d abstract states" % self.max_states)
+            if (nstates & 255) == 0 and getattr(self, "deadline", None) and _time.time() > self.deadline:
+                raise PathLimit("time budget exhausted after %d abstract states" % nstates)
             res = self.run_until_fork(st)
             for r in res:
                 if isinstance(r, Outcome):
